@@ -95,4 +95,24 @@ theorem case_args_len_guard (base localized : List Text) :
     (caseArgs base localized).length = base.length := by
   unfold caseArgs; split <;> simp_all
 
+/-- **A spoken message reports the language of its text**, whatever the recording's translations are:
+the recording is localized on its own and does not enter the choice. -/
+theorem say_msg_locale_is_text_language (c : Cfg) (trText trAudio trAudio' : Lang → Option (List Text))
+    (text audio audio' : Text) :
+    (sayMsg c trText trAudio text audio).2.2 = (getText c trText [text]).2 ∧
+    (sayMsg c trText trAudio text audio).2.2 = (sayMsg c trText trAudio' text audio').2.2 ∧
+    (sayMsg c trText trAudio text audio).1 = (sayMsg c trText trAudio' text audio').1 := by
+  simp [sayMsg]
+
+/-- …and the recording is chosen by the same fallback, independently of the text's translations -/
+theorem say_msg_audio_independent (c : Cfg) (trText trText' trAudio : Lang → Option (List Text)) (text text' audio : Text) :
+    (sayMsg c trText trAudio text audio).2.1 = (sayMsg c trText' trAudio text' audio).2.1 := by
+  simp [sayMsg]
+
+/-- text translated, recording not: the text's language is reported, the base recording is played -/
+example :
+    sayMsg ⟨some 2, [1, 2], 1⟩ (fun l => if l = 2 then some ["Bonjour".toList] else none) (fun _ => none)
+      "Hello".toList "hello-eng.m4a".toList = ("Bonjour".toList, "hello-eng.m4a".toList, 2) := by
+  decide
+
 end GoflowModel.Props.C18
